@@ -149,8 +149,8 @@ def opBnQuery (j : Json) : D Json := do
     let t ← findVarIdx net tname
     let k ← jNat (← jField j "k")
     let num := expect net (fun a => ind ev a * ((a t : Nat) : Rat) ^ k)
-    let gnum := expectL g (fun τ => (((τ t : Nat) : Rat) * ind ev τ) ^ k)
     let gden := expectL g (ind ev)
+    let gnum := if k = 0 then gden else expectL g (fun τ => (((τ t : Nat) : Rat) * ind ev τ) ^ k)
     pure (okJson (base ++ [("cond", optRat num pev), ("gen_cond", optRat gnum gden),
                            ("gen_num", jsonRat gnum), ("gen_den", jsonRat gden)]))
   | _ => pure (okJson base)
